@@ -16,6 +16,7 @@ import os
 import random
 import time as _time
 import uuid as _uuid
+import warnings
 
 from models import flowfile_c36 as M
 from simkit import fs as simfs
@@ -24,7 +25,7 @@ from simkit.world import digest
 ID = "C36"
 LEVEL = "exploration"
 ENGINE = "simkit/storage-world"
-QUICK_RUNS = 12000
+QUICK_RUNS = 20000
 QUICK_BUDGET_S = 120
 THOROUGH_BUDGET_S = 900
 CHUNK = 100
@@ -75,7 +76,9 @@ def seams(seed):
     for d in (compat.client_connections, compat.server_connections, compat._websocket_handshakes):
         d.clear()
     try:
-        yield
+        with warnings.catch_warnings():
+            warnings.simplefilter("ignore")  # e.g. cryptography's warnings about mutated certificates
+            yield
     finally:
         _uuid.uuid4, _time.time = old_uuid, old_time
         for d in (compat.client_connections, compat.server_connections, compat._websocket_handshakes):
